@@ -36,6 +36,9 @@ TNext == /\ l <= Len(Trace) /\ l' = l + 1
                                                   \cup (IF E.holes # <<>> THEN {"C16:pipeline-skips-frames-under-requests"} ELSE {})
                         [] E.ev = "reqpair" ->
                           (IF E.panic_with /\ ~E.panic_without THEN {"C16:request-crashes-pipeline"} ELSE {})
+                          \* after every accepted frame of those scripts the driver asked the processor for the frame a snapshot
+                          \* would return (GetRecentFrame): it must be the frame just processed, storage failing or not
+                          \cup (IF E.stale > 0 THEN {"C16:snapshot-older-than-last-completed-frame[storage-failing]"} ELSE {})
                           \cup (IF ~E.panic_with /\ ~E.panic_without /\
                                    (\E i \in DOMAIN E.without : \A j \in DOMAIN E.with : E.with[j] # E.without[i])
                                 THEN {"C16:request-changes-recordings"} ELSE {})
